@@ -515,8 +515,7 @@ def buildTrees (np : List Char → Res Newick.Parsed) (a : Acc) :
           | none => none
           | some labels =>
             if t.tipNames.any (fun x => !labels.contains x) then some "Taxa name in the tree is not defined in the TAXLABELS block"
-            else if t.tipNames.length ≠ labels.length then some "Some tax names defined in TAXLABELS are not present in the tree"
-            else none
+            else none    -- 6a194b0: a tree may bear a subset of the taxa of the TAXA block
         match chk with
         | some m => .err m
         | none =>
